@@ -153,6 +153,31 @@ func (sr *seqRunner) observeAux(x *Ctx, coll string, suffix string, fresh bool) 
 	add("q-all", x.queryRows(c, `SELECT json_quote(id) AS id, json_quote(hex(body)) AS body, json_quote(hex(xattrs)) AS xattrs FROM $_keyspace WHERE id LIKE `+like+` AND id NOT LIKE '~%' ORDER BY id`, absKey))
 	add("q-v", x.queryRows(c, `SELECT json_quote(id) AS id FROM $_keyspace WHERE id LIKE `+like+` AND id NOT LIKE '~%' AND json_valid(body) AND body->>'v' = 'J1' ORDER BY id`, absKey))
 	add("q-s", x.queryRows(c, `SELECT json_quote(id) AS id FROM $_keyspace WHERE id LIKE `+like+` AND id NOT LIKE '~%' AND xattrs->>'$._s.t' = 'x1' ORDER BY id`, absKey))
+	// which variant of the design document GetDDoc / GetDDocs report
+	{
+		ao := AuxObs{Rows: []AuxRow{}}
+		row := x.emptyRow("vd")
+		variantOf := func(dd sgbucket.DesignDoc, err error) string {
+			if err != nil {
+				return "error:" + classify(err)
+			}
+			switch dd.Views["v"].Map {
+			case viewDDocVariant("A").Views["v"].Map:
+				return "A"
+			case viewDDocVariant("B").Views["v"].Map:
+				return "B"
+			}
+			return "?"
+		}
+		row.Vals = append(row.Vals, variantOf(c.GetDDoc("vd")))
+		if all, err := c.GetDDocs(); err == nil {
+			row.Vals = append(row.Vals, variantOf(all["vd"], nil), fmt.Sprint(len(all)))
+		} else {
+			row.Vals = append(row.Vals, "error:"+classify(err), "0")
+		}
+		ao.Rows = append(ao.Rows, row)
+		add("ddoc", ao)
+	}
 	lo := []any{suffix}
 	hi := []any{suffix, map[string]any{}}
 	add("view", x.viewRows(c, "vd", "v", map[string]any{"startkey": lo, "endkey": hi}, absKey, suffix))
